@@ -2552,29 +2552,40 @@ pub(crate) fn check_or_constrain_signed(
 }
 
 pub(crate) fn constrain_type(expr: &mut TypedExpr, expected: &Type) -> Result<(), TypeErrors> {
-    fn overwrite_ty_if_necessary(actual: &mut Type, expected: &Type) {
+    // Gives an unspecified number type the expected number type. The value itself is not touched, so
+    // inside of a collection (whose elements keep the 32 bits of an unspecified number) only number
+    // types of the same width can be taken on:
+    fn overwrite_ty_if_necessary(actual: &mut Type, expected: &Type, in_collection: bool) {
+        let same_width = matches!(
+            expected,
+            Type::Unsigned(UnsignedNumType::U32 | UnsignedNumType::Usize)
+                | Type::Signed(SignedNumType::I32)
+        );
         match expected {
             Type::Unsigned(_) => {
-                if actual == &Type::Unsigned(UnsignedNumType::Unspecified) {
+                if actual == &Type::Unsigned(UnsignedNumType::Unspecified)
+                    && (same_width || !in_collection)
+                {
                     *actual = expected.clone();
                 }
             }
             Type::Signed(_) => {
-                if actual == &Type::Unsigned(UnsignedNumType::Unspecified)
-                    || actual == &Type::Signed(SignedNumType::Unspecified)
+                if (actual == &Type::Unsigned(UnsignedNumType::Unspecified)
+                    || actual == &Type::Signed(SignedNumType::Unspecified))
+                    && (same_width || !in_collection)
                 {
                     *actual = expected.clone();
                 }
             }
             Type::Array(expected, _) | Type::ArrayConst(expected, _) => {
                 if let Type::Array(actual, _) | Type::ArrayConst(actual, _) = actual {
-                    overwrite_ty_if_necessary(actual, expected);
+                    overwrite_ty_if_necessary(actual, expected, true);
                 }
             }
             Type::Tuple(expected) => {
                 if let Type::Tuple(actual) = actual {
                     for (expected, actual) in expected.iter().zip(actual.iter_mut()) {
-                        overwrite_ty_if_necessary(actual, expected);
+                        overwrite_ty_if_necessary(actual, expected, true);
                     }
                 }
             }
@@ -2583,11 +2594,13 @@ pub(crate) fn constrain_type(expr: &mut TypedExpr, expected: &Type) -> Result<()
     }
     match (&mut expr.inner, expected) {
         (ExprEnum::ArrayLiteral(elems), Type::Array(elem_ty, _) | Type::ArrayConst(elem_ty, _)) => {
-            for elem in elems {
+            for elem in elems.iter_mut() {
                 constrain_type(elem, elem_ty)?;
             }
-            if let Type::Array(actual, _) | Type::ArrayConst(actual, _) = &mut expr.ty {
-                overwrite_ty_if_necessary(actual, elem_ty);
+            if let (Some(elem), Type::Array(actual, _) | Type::ArrayConst(actual, _)) =
+                (elems.first(), &mut expr.ty)
+            {
+                **actual = elem.ty.clone();
             }
         }
         (
@@ -2596,7 +2609,7 @@ pub(crate) fn constrain_type(expr: &mut TypedExpr, expected: &Type) -> Result<()
         ) => {
             constrain_type(elem, elem_ty)?;
             if let Type::Array(actual, _) | Type::ArrayConst(actual, _) = &mut expr.ty {
-                overwrite_ty_if_necessary(actual, elem_ty);
+                **actual = elem.ty.clone();
             }
         }
         (
@@ -2610,6 +2623,9 @@ pub(crate) fn constrain_type(expr: &mut TypedExpr, expected: &Type) -> Result<()
                     return Err(vec![Some(TypeError::new(e, expr.meta))]);
                 }
                 *num_ty = *expected;
+                if let Type::Array(actual, _) | Type::ArrayConst(actual, _) = &mut expr.ty {
+                    **actual = Type::Unsigned(*expected);
+                }
             }
         }
         (ExprEnum::TupleLiteral(elems), Type::Tuple(elem_tys)) if elems.len() == elem_tys.len() => {
@@ -2617,26 +2633,19 @@ pub(crate) fn constrain_type(expr: &mut TypedExpr, expected: &Type) -> Result<()
                 constrain_type(elem, elem_ty)?;
             }
             if let Type::Tuple(actual_elem_tys) = &mut expr.ty {
-                for (actual, expected) in actual_elem_tys.iter_mut().zip(elem_tys) {
-                    overwrite_ty_if_necessary(actual, expected);
-                }
-            }
-        }
-        (ExprEnum::Identifier(_), Type::Array(elem_ty, _) | Type::ArrayConst(elem_ty, _)) => {
-            if let Type::Array(actual, _) | Type::ArrayConst(actual, _) = &mut expr.ty {
-                overwrite_ty_if_necessary(actual, elem_ty);
-            }
-        }
-        (ExprEnum::Identifier(_), Type::Tuple(elem_tys)) => {
-            if let Type::Tuple(actual_elem_tys) = &mut expr.ty {
-                for (actual, expected) in actual_elem_tys.iter_mut().zip(elem_tys) {
-                    overwrite_ty_if_necessary(actual, expected);
+                for (actual, elem) in actual_elem_tys.iter_mut().zip(elems.iter()) {
+                    *actual = elem.ty.clone();
                 }
             }
         }
         (ExprEnum::Match(_, clauses), ty) => {
-            for (_, body) in clauses {
+            for (_, body) in clauses.iter_mut() {
                 constrain_type(body, ty)?;
+            }
+            if let Some((_, first)) = clauses.first() {
+                if clauses.iter().all(|(_, body)| body.ty == first.ty) {
+                    expr.ty = first.ty.clone();
+                }
             }
         }
         (ExprEnum::UnaryOp(op, expr), ty) => match op {
@@ -2664,20 +2673,35 @@ pub(crate) fn constrain_type(expr: &mut TypedExpr, expected: &Type) -> Result<()
         },
         (ExprEnum::Block(stmts), ty) => {
             if let Some(last) = stmts.last_mut() {
-                if let StmtEnum::Expr(expr) = &mut last.inner {
-                    constrain_type(expr, ty)?;
+                if let StmtEnum::Expr(last) = &mut last.inner {
+                    constrain_type(last, ty)?;
+                    expr.ty = last.ty.clone();
                 }
             }
         }
         (ExprEnum::If(_, then_expr, else_expr), ty) => {
             constrain_type(then_expr, ty)?;
             constrain_type(else_expr, ty)?;
+            if then_expr.ty == else_expr.ty {
+                expr.ty = then_expr.ty.clone();
+            }
         }
         (_, Type::Unsigned(ty)) => check_or_constrain_unsigned(expr, *ty)?,
         (_, Type::Signed(ty)) => check_or_constrain_signed(expr, *ty)?,
         _ => {}
     }
-    overwrite_ty_if_necessary(&mut expr.ty, expected);
+    match expr.inner {
+        // literals and control flow are re-typed through their children and have the type of these
+        ExprEnum::ArrayLiteral(_)
+        | ExprEnum::ArrayRepeatLiteral(_, _)
+        | ExprEnum::ArrayRepeatLiteralConst(_, _)
+        | ExprEnum::TupleLiteral(_)
+        | ExprEnum::Range(_, _, _)
+        | ExprEnum::Match(_, _)
+        | ExprEnum::Block(_)
+        | ExprEnum::If(_, _, _) => {}
+        _ => overwrite_ty_if_necessary(&mut expr.ty, expected, false),
+    }
     Ok(())
 }
 
